@@ -4,10 +4,30 @@ import json, subprocess
 
 # property id -> (technique, level text, level note, design ref)
 CLAIMS = {
+ "C01": ("property-based testing (proptest): generated source sets x argument orders, reference-model oracle (stable k-way merge by (instant, position)), through the real s4 binary",
+         "Exploration: hundreds to thousands of generated sets of 1..6 sources of all kinds with frequent cross-source ties; merged stdout must equal the reference merge byte for byte. Finds wrong tie-breaks, unstable order, lost/duplicated messages in the private merge loop. Thread interleavings are varied by C06, not here.",
+         "Trusts: single-source runs of s4 as the per-source sequence for accounting-record/journal/evtx sources; generator truth for text.",
+         "DESIGN.md section 4 C01"),
  "C02": ("property-based testing (proptest): generated text logs x block sizes, round-trip oracle against generator-known bytes, through the real s4 binary",
          "Exploration: hundreds (quick) to thousands (thorough) of generated text logs, each read at 3 block sizes with and without a sentinel message separator; stdout must equal the generator-known bytes and message boundaries. Finds dropped/duplicated/split/merged messages at block boundaries; cannot show absence.",
          "Trusts: the harness' own rendering of timestamps; the domain excludes files rejected by the block-zero heuristic (known finding F6) and lines with two adjacent digits outside the timestamp.",
          "DESIGN.md section 4 C02"),
+ "C03": ("property-based testing (proptest): generated ordered logs x windows placed relative to message instants, reference-filter oracle A<=t<=B over generator-known instants",
+         "Exploration: generated chronological text logs (plain => binary search; gz/bz2/xz/lz4/tar => linear scan) at block sizes 64..70000 with 1..4 windows each whose bounds sit on, +-1us/ms/s around, between, before and after message instants (A=B, one-sided); printed set must equal the inclusive filter, exit status 0 also when empty. Windows over accounting records are checked by the same oracle in C08.",
+         "Trusts: harness timestamp rendering; bounds passed with microsecond resolution and explicit +00:00.",
+         "DESIGN.md section 4 C03"),
+ "C05": ("property-based testing (proptest): differential oracle container-vs-plain over generated contents and generated compressor parameters",
+         "Exploration: generated text logs (small and 0.1-1.5 MB poorly compressible), synthesised accounting-record files, shipped journal/evtx and tiny raw files, wrapped by gz (flate2 levels/header fields; zlib flush points), bz2, xz, lz4 (all frame options) and tar (member position, decoys, long names) with generated parameters, read at block sizes 64..0xFFFFFF under optional windows; stdout must equal the plain-file run.",
+         "Trusts: the plain-file run as reference (its own correctness is C02/C08/C09/C10). Known finding: xz with SHA-256 check (excluded by construction, probed).",
+         "DESIGN.md section 4 C05"),
+ "C08": ("property-based testing (proptest): synthesised record files for all 15 layouts, reference-model oracle (live records stable-sorted by time value) with every printed field parsed back",
+         "Exploration: thousands of generated record files (duplicated/disordered/seconds-only times, null records interleaved) x containers x block sizes x windows; the printed sequence must be exactly the live records in stable time order and each line must carry that record's own string fields, pid and time.",
+         "Trusts: struct offsets/sizes from s4lib's public definitions; layout detection is outside the property (mis-detected cases discarded and counted).",
+         "DESIGN.md section 4 C08"),
+ "C12": ("property-based testing (proptest) + exhaustive small-scope enumeration: metamorphic oracle (stdout at any block size == stdout at 65536 == model) and in-process LineReader tiling oracle",
+         "Exploration + bounded-exhaustive: generated logs/containers/windows run at 5 block sizes from a boundary-rich pool incl. 64 and 0xFFFFFF; in-process LineReader at block sizes 1..len+2 on generated contents, and every content over {\\n,a,1} up to length 7 at every block size 1..len+1 (exhaustive).",
+         "Trusts: the 65536 run as metamorphic reference (additionally compared with the generator model); files outside the block-zero heuristic excluded (F6).",
+         "DESIGN.md section 4 C12"),
 }
 PENDING_REASON = "check not built yet in this session (planned in DESIGN.md section 4); not claimed until its check exists and is silent on the unchanged tree"
 
